@@ -218,13 +218,24 @@ def _ret_kind(fn):
 
 
 class FnTr:
-    def __init__(self, sc, fn, binds, depth=0):
+    def __init__(self, sc, fn, binds, depth=0, ret_slot=None):
         self.sc, self.fn, self.depth = sc, fn, depth
         self.kind = _ret_kind(fn)
         self.env = dict(binds)          # var name -> abstract value: ("obj", path) | ("int", n) | UNK | ("resvar", path) ...
         self.body = [c for c in fn["inner"] if c.get("kind") == "CompoundStmt"][0]
         self.retvars = set()
         self._find_retvars(self.body)
+        # ownership through the return value: the caller says where the returned pointer goes (ret_slot); the
+        # local that the function returns IS that destination from its declaration on
+        self.ret_slot = ret_slot
+        self.alias = {}
+        if ret_slot is not None and self.kind == "ptr":
+            ptr_locals = [v for v in sorted(self.retvars) if self._local_is_pointer(v)]
+            if len(ptr_locals) == 1:
+                self.alias[ptr_locals[0]] = ret_slot
+        # a pointer local that is later stored into a field (`T *p = malloc(..); ...; obj->f = p;`) is that field
+        # from its declaration on, provided the field is not mentioned before the store
+        self._prescan_alias()
         self.labels = {}
         top = self.body.get("inner", [])
         for i, s in enumerate(top):
@@ -241,6 +252,57 @@ class FnTr:
                     self.retvars.add(e["referencedDecl"]["name"])
             for c in n.get("inner", []) or []:
                 self._find_retvars(c)
+
+    def _local_is_pointer(self, name):
+        found = []
+
+        def walk(n):
+            if isinstance(n, dict):
+                if n.get("kind") == "VarDecl" and n.get("name") == name:
+                    found.append(n["type"]["qualType"].rstrip().endswith("*"))
+                for c in n.get("inner", []) or []:
+                    walk(c)
+        walk(self.body)
+        return bool(found) and all(found)
+
+    def _prescan_alias(self):
+        seen = []           # member paths mentioned so far, in source order
+        locals_ = set()
+
+        def collect_locals(n):
+            if isinstance(n, dict):
+                if n.get("kind") == "VarDecl" and n["type"]["qualType"].rstrip().endswith("*") \
+                        and "(*)" not in n["type"]["qualType"]:
+                    locals_.add(n["name"])
+                for c in n.get("inner", []) or []:
+                    collect_locals(c)
+        collect_locals(self.body)
+
+        def walk(n):
+            if not isinstance(n, dict):
+                return
+            if n.get("kind") == "BinaryOperator" and n.get("opcode") == "=":
+                l, r = _strip(n["inner"][0]), _strip(n["inner"][1])
+                if r.get("kind") == "DeclRefExpr" and r["referencedDecl"].get("kind") == "VarDecl" \
+                        and r["referencedDecl"]["name"] in locals_ and l.get("kind") in ("MemberExpr", "ArraySubscriptExpr"):
+                    pth = self.path_of(l)
+                    nm = r["referencedDecl"]["name"]
+                    if pth is not None and "[?]" not in pth and pth not in seen and nm not in self.alias:
+                        self.alias[nm] = pth
+                    walk(n["inner"][1])
+                    if pth is not None:
+                        seen.append(pth)
+                    return
+            if n.get("kind") == "MemberExpr":
+                pth = self.path_of(n)
+                if pth is not None:
+                    seen.append(pth)
+            for c in n.get("inner", []) or []:
+                walk(c)
+        walk(self.body)
+
+    def local_path(self, name):
+        return self.alias.get(name, ("$" + self.fn["name"], name))
 
     def err(self, msg, n=None):
         loc = ""
@@ -351,8 +413,9 @@ class FnTr:
     def is_acquire(self, n):
         return self.call_name(n) in ACQUIRE
 
-    def inline(self, n):
-        """translate a resource-relevant callee in place; returns (stmts, callee return kind)."""
+    def inline(self, n, ret_slot=None):
+        """translate a resource-relevant callee in place; returns (stmts, callee return kind).
+        ret_slot: where the caller puts the returned (owned) pointer."""
         n = _strip(n)
         name = self.call_name(n)
         fn = self.sc.loader.load(name)
@@ -370,7 +433,7 @@ class FnTr:
             else:
                 v = self.ival(a)
                 binds[p["name"]] = ("int", v) if v is not None else UNK
-        t = FnTr(self.sc, fn, binds, self.depth + 1)
+        t = FnTr(self.sc, fn, binds, self.depth + 1, ret_slot)
         return t.run(), t.kind
 
     # ---------------------------------------------------------------- conditions
@@ -466,9 +529,9 @@ class FnTr:
     def neg(self, c):
         if c[0] == "const":
             return ("const", not c[1])
-        if c[0] == "null" and len(c[1]) == 1:
+        if c[0] == "null":                 # "some pointer is NULL"  <->  "all are non-NULL"
             return ("set", c[1])
-        if c[0] == "set" and len(c[1]) == 1:
+        if c[0] == "set":
             return ("null", c[1])
         if c[0] in ("callfail", "retfail"):
             return (c[0], c[1], not c[2])
@@ -555,6 +618,22 @@ class FnTr:
         while i < len(stmts):
             s = stmts[i]
             nxt = stmts[i + 1] if i + 1 < len(stmts) else None
+            if s.get("kind") == "IfStmt" and len(s["inner"]) == 2:
+                c = self.cond(s["inner"][0])
+                if c[0] == "callfail" and not c[2]:
+                    # if (call_succeeded) { A }  REST   ==   call; on failure: REST (must return); on success: A; REST
+                    body, _ = self.inline(c[1])
+                    envs = dict(self.env)
+                    h, hr = self.block(stmts, i + 1)
+                    if not hr:
+                        self.err("success test of a call: the statements after it must end in a return on the failure path", s)
+                    self.env = dict(envs)
+                    a, ar, _ = self.stmt(s["inner"][1])
+                    out += [("Call", body, False, h)] + a
+                    if ar:
+                        return out, True
+                    i += 1
+                    continue
             o, ret, skip = self.stmt(s, nxt)
             out += o
             if ret:
@@ -584,7 +663,7 @@ class FnTr:
                     return o, True, 0
             self.err("goto to a label that is not at the top level of the function", s)
         if k == "ReturnStmt":
-            return [("Ret", self.ret_class(s))], True, 0
+            return self.retstmt(s), True, 0
         if k == "DeclStmt":
             out = []
             for d in s.get("inner", []):
@@ -644,6 +723,32 @@ class FnTr:
     def default_ret(self):
         return "Ok"
 
+    def retstmt(self, s):
+        if s.get("inner"):
+            e = _strip(s["inner"][0])
+            if self.ret_slot is not None and self.kind == "ptr":
+                # ownership leaves through the return value
+                if e.get("kind") == "GNUNullExpr" or self.ival(e) == 0:
+                    return [("SetNull", self.sc.rid(self.ret_slot)), ("Ret", "Fail")]
+                pth = self.path_of(e)
+                if pth is not None and (self.sc.known(pth) or pth == self.ret_slot):
+                    if pth == self.ret_slot:
+                        return [("Ret", "Ok")]
+                    return [("Move", self.sc.rid(self.ret_slot), self.sc.rid(pth)), ("Ret", "Ok")]
+                self.err("returned pointer cannot be traced to an acquisition", s)
+            if self.kind == "bool" and self.ival(e) is None:
+                c = self.cond(e)
+                if c[0] == "null":        # true iff some pointer is NULL; true = success for a bool function
+                    return [("IfNull", c[1], [("Ret", "Ok")]), ("Ret", "Fail")]
+                if c[0] == "set":
+                    body = [("Ret", "Ok")]
+                    for i in reversed(c[1]):
+                        body = [("IfSet", i, body)]
+                    return body + [("Ret", "Fail")]
+                if c[0] == "const":
+                    return [("Ret", "Ok" if c[1] else "Fail")]
+        return [("Ret", self.ret_class(s))]
+
     def ret_class(self, s):
         if not s.get("inner"):
             return "Ok"
@@ -686,15 +791,21 @@ class FnTr:
         if init is None:
             self.env[name] = UNK
             if qual.rstrip().endswith("*"):
-                self.env[name] = ("resvar", ("$" + self.fn["name"], name))
+                self.env[name] = ("resvar", self.local_path(name))
             return [], False
         e = _strip(init)
         if self.is_acquire(e):
-            p = ("$" + self.fn["name"], name)
+            p = self.local_path(name)
             self.env[name] = ("resvar", p)
             return [("Alloc", self.sc.rid(p))], False
         cn = self.call_name(e)
         if cn and cn != "<indirect>" and self.sc.relevant(cn):
+            if self.callee_kind(cn) == "ptr":
+                p = self.local_path(name)
+                self.env[name] = ("resvar", p)
+                self.sc.rid(p)
+                body, _ = self.inline(e, p)
+                return [("Call", body, False, [])], False
             return self.call_into(name, e, nxt, s)
         if cn:
             fn = self.sc.loader.load(cn) if cn != "<indirect>" else None
@@ -711,8 +822,12 @@ class FnTr:
         v = self.ival(e)
         self.env[name] = ("int", v) if v is not None else UNK
         if qual.rstrip().endswith("*") and v is None:
-            self.env[name] = ("resvar", ("$" + self.fn["name"], name))
+            self.env[name] = ("resvar", self.local_path(name))
         return [], False
+
+    def callee_kind(self, name):
+        fn = self.sc.loader.load(name)
+        return _ret_kind(fn) if fn else None
 
     def call_into(self, var, call, nxt, s):
         """var = relevant_call(..); a directly following `if (var ...)` is merged as the failure handler."""
@@ -749,6 +864,12 @@ class FnTr:
             name = l["referencedDecl"]["name"]
             cn = self.call_name(rhs)
             if cn and cn not in ACQUIRE and cn != "<indirect>" and self.sc.relevant(cn):
+                if self.callee_kind(cn) == "ptr":
+                    p = self.local_path(name)
+                    self.env[name] = ("resvar", p)
+                    self.sc.rid(p)
+                    body, _ = self.inline(rhs, p)
+                    return [("Call", body, False, [])], False, 0
                 o, consumed = self.call_into(name, rhs, nxt, e)
                 return o, False, 1 if consumed else 0
             if cn and cn not in ACQUIRE:
@@ -756,7 +877,7 @@ class FnTr:
                 self.env[name] = ("okcall", _ret_kind(fn)) if fn else UNK
                 return [], False, 0
             if self.is_acquire(rhs):
-                p = ("$" + self.fn["name"], name)
+                p = self.local_path(name)
                 self.env[name] = ("resvar", p)
                 return [("Alloc", self.sc.rid(p))], False, 0
             v = self.ival(rhs)
@@ -770,6 +891,11 @@ class FnTr:
             return [], False, 0
         if self.is_acquire(rhs):
             return [("Alloc", self.sc.rid(pth))], False, 0
+        cn0 = self.call_name(rhs)
+        if cn0 and cn0 not in ACQUIRE and cn0 != "<indirect>" and self.sc.relevant(cn0) and self.callee_kind(cn0) == "ptr":
+            self.sc.rid(pth)                   # field = helper_that_returns_an_owned_pointer(..)
+            body, _ = self.inline(rhs, pth)
+            return [("Call", body, False, [])], False, 0
         if self.sc.known(pth):
             if self.is_nullish(rhs):
                 return [("SetNull", self.sc.rid(pth))], False, 0
